@@ -100,7 +100,7 @@ structure RS where
   pos : Nat := 0
   col : Nat := 0
   colFix : Bool := false     -- does the source under test contain the column/range repair?
-  coldepSeen : Bool := false -- a column-dependent candidate met the gate while ranges differed
+  coldepSeen : Bool := false -- a column-dependent candidate met the gate
   state : Option Nat := none
   startState : Nat := 1
   didReuse : Bool := false
@@ -146,7 +146,7 @@ def RS.gateEvent (s : RS) (L : Lang) (symName : Nat → String) (ev : Verdict) (
       let extEq := ev != .extState
       let ld := lineDiffOf s.colFix s.diffs.toList t off s.col
       let s := { s with gate := s.gate + 1
-                        coldepSeen := s.coldepSeen || (t.data.dependsOnColumn && !s.diffs.isEmpty) }
+                        coldepSeen := s.coldepSeen || t.data.dependsOnColumn }
       -- `included_range_difference_index` is advanced with the position of whichever stack version
       -- was processed last; after a version that ran ahead is dropped, differences ending at or
       -- before `maxPos` may already have been skipped although they lie ahead of this version.
